@@ -113,6 +113,15 @@ def initialEstimate (p1 p2 cp : P2 R) : R :=
   -- `P1Pc*P1P2` is `Point::operator*`: 0 + x*x' + y*y'
   if d > 0.0 then Scalar.min (1.0 : R) (Scalar.max (0.0 : R) (P2.dot (cp - p1) (p2 - p1) / d)) else 1.0
 
+/-- spherical branch: the same estimate with the longitude difference `cp − p1` brought into `[−π, π]`
+(upstream 'fix: spherical closest point … 2 pi'; before, a trench written 360° away from the query's longitude clamped the estimate to the wrong end) -/
+def initialEstimateSph (p1 p2 cp : P2 R) : R :=
+  let d := P2.dot (p2 - p1) (p2 - p1)
+  let dx0 := cp.x - p1.x
+  let dx := if dx0 > Scalar.pi then dx0 - (2.0 : R) * Scalar.pi else if dx0 < -Scalar.pi then dx0 + (2.0 : R) * Scalar.pi else dx0
+  let pc : P2 R := ⟨dx, cp.y - p1.y⟩
+  if d > 0.0 then Scalar.min (1.0 : R) (Scalar.max (0.0 : R) (P2.dot pc (p2 - p1) / d)) else 1.0
+
 /-! #### Cartesian branch -/
 
 @[inline] def evalC (k : Cubic R) (dm0 dm1 t : R) : R :=
@@ -260,7 +269,7 @@ def closestSphericalLoop (bz : Bezier R) (cp : P2 R) (cosCpLat : R) : Nat → Na
       let p1 ← idx bz.points i
       let p2 ← idx bz.points (i + 1)
       let (c0, c1) ← idx bz.control i
-      let est0 := initialEstimate p1 p2 cp
+      let est0 := initialEstimateSph p1 p2 cp
       -- `3.*control[0] - 3.*control[1] + points[i+1] - points[i]` etc. on points: same component expressions as `cubicOf`
       let k := cubicOf p1 p2 c0 c1
       let (est, found) := newtonS k cosCpLat cp 150 est0
